@@ -104,6 +104,28 @@ def run_pair(ctx, pred, refa, fam):
     monitors.S.exact = False
     if ctx.cases_run % 3 == 0:
         reuse_sweep(ctx, pred, refa, pi, ri)
+    # preallocated buffers refilled per case (same array objects, new content) and long-lived matcher objects:
+    # every call is judged by the monitor against the content the arrays have at the time of the call
+    store = ctx.__dict__.setdefault("_reuse", {"matchers": {}, "bufs": {}})
+    key_b = (pred.shape, str(pred.dtype))
+    if key_b not in store["bufs"]:
+        store["bufs"][key_b] = (np.zeros(pred.shape, pred.dtype), np.zeros(refa.shape, refa.dtype))
+    bp, br = store["bufs"][key_b]
+    # second content for the same buffers: the prediction mirrored along its first axis (other overlaps, same labels)
+    variant = pred[::-1]
+    for conf in (("IOU", 0.5, False), ("DSC", 0.3, True), ("IOU", 0.1, False)):
+        if conf not in store["matchers"]:
+            store["matchers"][conf] = pan.make_matcher({"kind": "naive", "metric": conf[0], "thr": conf[1], "m2o": conf[2]})
+        for content in (pred, variant):
+            np.copyto(bp, content)
+            np.copyto(br, refa)
+            ctx.count("evaluations")
+            ctx.count("C03.calls_on_refilled_buffers")
+            try:
+                with pan.quiet():
+                    store["matchers"][conf].match_instances(UnmatchedInstancePair(bp, br))
+            except Exception:  # noqa: BLE001  (recorded by the monitor)
+                pass
     if pi and ri:
         ctx.sample({"family": fam, "pred": pred, "ref": refa})
 
